@@ -235,6 +235,10 @@ func equalDecimal64(a, b *sdcpb.Decimal64) bool {
 // not a higher one). A number that leaves the 64 bit range on the way is reported as not representable: it is larger
 // in magnitude than any decimal64 of the precision to.
 func scaleDecimal64(digits int64, precision uint32, to uint32) (int64, bool) {
+	// zero is zero at every precision (and the only number the loop below could scale for ever)
+	if digits == 0 {
+		return 0, true
+	}
 	for precision < to {
 		if digits > math.MaxInt64/10 || digits < math.MinInt64/10 {
 			return 0, false
